@@ -391,6 +391,53 @@ def gen_big(hid, rng, tier):
     return h
 
 
+def gen_wide(hid, rng, tier, prop):
+    """large node capacities (the package default is 128): wide branches, three levels where the size allows;
+    grow, observe, shrink by more than half (branch-level borrow / merge among wide nodes), observe, regrow"""
+    cap = rng.choice([64, 128, 128, 129, 200, 255, 256, 257])
+    n = min(cap * cap // 2 + 4 * cap, 9000 if tier == "quick" else 40000)
+    h = PyHist(hid, cap, rng.choice(["int", "int", "str", "obj"]), rng, p_none=rng.choice([0.0, 0.1]))
+    h.directive("DUMP 0")
+    style = rng.choice(["asc", "desc", "rand", "rand"])
+    keys = list(range(n))
+    if style == "desc":
+        keys.reverse()
+    elif style == "rand":
+        rng.shuffle(keys)
+    for i, z in enumerate(keys):
+        h.set(z)
+        if i % 2000 == 1999:
+            h.raw("len")
+    def observe():
+        h.directive("DUMP 1")
+        h.raw("len")
+        for _ in range(6):
+            a = rng.randrange(-2, n + 2)
+            b = a + rng.choice([0, 1, cap // 2, cap, 3 * cap])
+            h.raw(rng.choice([f"items {a} {b}", f"keys {a} -", f"range {a} {b}", f"values - {b}"]))
+            z = rng.randrange(-1, n + 1)
+            h.raw(rng.choice([f"getitem {z}", f"in {z}", f"get {z} 5", f"pop {z} 7", f"setdefault {z} {h.newkid()} 3"]))
+        if prop == "C08":
+            h.raw("items - -")
+        h.raw("popitem")
+        h.directive("DUMP 0")
+    observe()
+    order = list(range(n))
+    rng.shuffle(order)
+    for i, z in enumerate(order[: (n * 2) // 3]):
+        h.delete(z)
+        if i % 1500 == 1499:
+            h.raw("len")
+    observe()
+    for z in order[: n // 4]:
+        h.set(z)
+    observe()
+    for z in sorted(order[(n * 2) // 3:])[: n // 6]:      # drain from the low end: leftmost-branch merges
+        h.delete(z)
+    observe()
+    return h
+
+
 def gen_bulk_history(hid, rng, tier):
     """C09: bulk loads of many shapes, each followed by mutations of the loaded map"""
     h = PyHist(hid, rng.choice([4, 5, 6, 8]), rng.choice(MODES), rng, p_none=rng.choice([0.0, 0.2]))
@@ -421,6 +468,8 @@ def gen_histories(prop, seed, shard, nhist, tier):
             hs.append(gen_history(prop, hid, rng, tier))
     if prop == "C07" and shard % 4 == 0:
         hs.append(gen_big(f"{prop}s{shard}big", rng, tier))
+    if shard % 4 == 1:
+        hs.append(gen_wide(f"{prop}s{shard}wide", rng, tier, prop))
     return hs
 
 
